@@ -632,6 +632,26 @@ func (c *Ctx) removeContinuesSearch(rm *ssa.Function) {
 		}
 		c.removeContinuesSearchIn(rm, &ok, &det)
 	}
+	if !ok && det == "no test of the list-level removal's not-found error that continues the loop" {
+		// the entry is looked up first (membership query) and removed by position: there is
+		// no not-found error to test; whether the search continues is a question about that lookup
+		found := false
+		for _, f := range c.cone(top) {
+			instrsOf(f, func(i ssa.Instruction) {
+				if call, isC := i.(*ssa.Call); isC {
+					if id := ir.CallID(call); id == sigPkg+".SignatureList.RemoveBytes" || id == sigPkg+".SignatureList.RemoveSignature" {
+						if e, kept := errValue(call); kept && e != nil {
+							found = true
+						}
+					}
+				}
+			})
+		}
+		if !found {
+			c.R.Infof("K6.search", name(top), "miss-continues", c.Pos(top.Pos()), "not decided for this shape: the database-level removal does not go through the list-level removal and its not-found error")
+			return
+		}
+	}
 	c.R.Check(ok, "K6.search", name(top), "miss-continues", c.Pos(top.Pos()), "a miss in one matching list continues the search in the following lists", det)
 }
 
